@@ -425,13 +425,13 @@ func TestCheck(t *testing.T) {
 		judgeWFail(r, t, wf)
 		return
 	}
-	if mon.ReplayCase(&sc) {
-		judge(r, t, sc)
-		return
-	}
 	var bt burstT
 	if mon.ReplayCase(&bt) && bt.Burst {
 		judgeBurst(r, t, bt)
+		return
+	}
+	if mon.ReplayCase(&sc) {
+		judge(r, t, sc)
 		return
 	}
 	for i, b := range burstGrid() {
